@@ -76,6 +76,7 @@ func VxC14Operators() {
 	te := NewTemporalEvaluator(store, time.Unix(0, T))
 	sols, err := te.EvalTemporalLiteral(tl, unionfind.New())
 	vxReach("evaluated")
+	vxObserve("solutions", len(sols))
 	vxAssert(err == nil, "operator-no-error")
 	// documented window: measured back from (past) / forward from (future) the evaluation time
 	var lo, hi int64
